@@ -101,4 +101,14 @@ def multiImpulse (cfgs : List ObjCfg) (calls : List (Nat × Bool × Nat)) (g : R
   let rs := runOwn cfg ker (fun _ _ => PSum.ofRat g) cs
   (calls.zip rs).map fun ((o, b, _), r) => (List.range ((cfg o).dst b)).map r
 
+/-- the same population and history in the pooled variant (arrays shared by padded size, flags) — run by the driver so
+that the harness can tell which generated histories discriminate the defect class from the per-object model -/
+def multiPoolImpulse (cfgs : List ObjCfg) (calls : List (Nat × Bool × Nat)) (g : Rat) : List (List PSum) :=
+  let cfg : Nat → ObjCfg := fun i => cfgs.getD i ⟨false, 1, 1, 1⟩
+  let ker : Bool → Nat → Int → PSum := fun back M n =>
+    PSum.turns ((if back then (n : Rat) else -(n : Rat)) / (M : Rat))
+  let cs : List (MCall PSum) := calls.map fun (o, b, j) => ⟨o, b, PSum.impulse j⟩
+  let rs := runPool cfg ker ⟨fun _ _ => PSum.ofRat g, fun _ => false⟩ cs
+  (calls.zip rs).map fun ((o, b, _), r) => (List.range ((cfg o).dst b)).map r
+
 end HcipyVerif.Fft
